@@ -75,7 +75,7 @@ fn want(site: &Site, code: u8) -> Want {
     }
 }
 
-fn run_case(site: &Site, code: u8, inter: usize, receipt_field: Option<u32>, acc: &mut Acc) -> (Option<OpResult>, Vec<String>) {
+fn run_case(site: &Site, code: u8, inter: usize, receipt_field: Option<u32>, paced: bool, acc: &mut Acc) -> (Option<OpResult>, Vec<String>) {
     let mut ctx = Ctx::new(vec![], vec![], 0);
     let sh: Sh = Rc::new(RefCell::new(std::mem::replace(&mut ctx, Ctx::new(vec![], vec![], 0))));
     let armed = Rc::new(RefCell::new(false));
@@ -89,14 +89,23 @@ fn run_case(site: &Site, code: u8, inter: usize, receipt_field: Option<u32>, acc
         *hit2.borrow_mut() += 1;
         let r = Replies { table: t.table };
         let mut s = vec![r.ack()];
+        // paced: every packet follows the previous one a second inside the per-packet time-out, so the
+        // exchange as a whole lasts longer than one time-out
+        let gap = std::time::Duration::from_millis(if request == "ReadCard" { 16_000 } else { 59_000 });
         if inter <= 2 {
             for _ in 0..inter {
+                if paced {
+                    s.push(Step::Delay(gap));
+                }
                 s.push(r.intermediate(0x17));
             }
         } else {
             // a status information with a result code of its own ahead of the abort
             let own = if inter == 3 { 0x00u64 } else { 0xa0 };
             s.push(r.status(&[("result_code", vcore::codec::Val::Int(own)), ("amount", vcore::codec::Val::Int(958))], "status-ahead-of-abort"));
+        }
+        if paced {
+            s.push(Step::Delay(gap));
         }
         s.push(match request {
             "PartialReversal" | "PreAuthReversal" | "EndOfDay" => r.reversal_abort(code, receipt_field),
@@ -165,15 +174,22 @@ pub fn run(run: &RunInfo) -> Summary {
         let shapes: Vec<Option<u32>> = if ["PartialReversal", "PreAuthReversal", "EndOfDay"].contains(&site.request) { vec![None, Some(0xffff), Some(17)] } else { vec![None] };
         let status_in_set = ["Reservation", "PartialReversal", "PreAuthReversal", "EndOfDay"].contains(&site.request);
         let top = if status_in_set && site.max_inter == 2 { 4 } else { site.max_inter };
-        for (inter, shape) in (0..=top).flat_map(|i| shapes.iter().map(move |s| (i, *s))) {
+        let mut variants: Vec<(usize, Option<u32>, bool)> = (0..=top).flat_map(|i| shapes.iter().map(move |s| (i, *s, false))).collect();
+        if top >= 2 {
+            variants.push((2, None, true));
+        }
+        for (inter, shape, paced) in variants {
             if shape.is_some() && inter > 0 {
                 continue;
             }
-            let key = format!("c20/abort-at={}/code={code:02X}/intermediates={inter}/receipt-field={shape:?}", site.name);
+            let key = format!("c20/abort-at={}/code={code:02X}/intermediates={inter}/receipt-field={shape:?}{}", site.name, if paced { "/paced" } else { "" });
             if skip_for_replay(run, &key) {
                 continue;
             }
-            let (res, trace) = run_case(site, code, inter, shape, acc);
+            if paced {
+                acc.count("w_paced", 1);
+            }
+            let (res, trace) = run_case(site, code, inter, shape, paced, acc);
             acc.count("executions", 1);
             let Some(res) = res else {
                 acc.count("unreached", 1);
@@ -230,7 +246,7 @@ pub fn run(run: &RunInfo) -> Summary {
         transitions: acc.get("transitions"),
         traces_validated: execs,
         distinct_nontrivial: acc.set_len("outcomes"),
-        rule: format!("real Feig client against the simulated terminal: all 256 result codes x {} abort sites (read card; reservation; the partial reversal of commit; the reversal of cancel; pending query, dangling reversal and end-of-day of the clean-up of commit, cancel and configure; system info, set-terminal-id and initialisation of configure) x abort after 0, 1 and 2 intermediate packets where the reply set allows them, and after a status information carrying a result code of its own (00, A0), the abort packet plain and (for the reversal-type aborts) carrying a receipt-number field with FFFF or an ordinary number. The call must fail with Aborted(code), or an error text naming 0x<code> or (read card) the chapter-10 message of the code; the only renamings/successes are 6C at read card, FC at reservation, A0 at end-of-day and the query's own reply code B8", all.len()),
+        rule: format!("real Feig client against the simulated terminal: all 256 result codes x {} abort sites (read card; reservation; the partial reversal of commit; the reversal of cancel; pending query, dangling reversal and end-of-day of the clean-up of commit, cancel and configure; system info, set-terminal-id and initialisation of configure) x abort after 0, 1 and 2 intermediate packets where the reply set allows them, after 2 intermediate packets with every packet a second inside the per-packet time-out after the previous one (the exchange lasts longer than one time-out), and after a status information carrying a result code of its own (00, A0), the abort packet plain and (for the reversal-type aborts) carrying a receipt-number field with FFFF or an ordinary number. The call must fail with Aborted(code), or an error text naming 0x<code> or (read card) the chapter-10 message of the code; the only renamings/successes are 6C at read card, FC at reservation, A0 at end-of-day and the query's own reply code B8", all.len()),
         exhaustive: true,
         required_witnesses: vec!["aborts were reported with their code".into(), "the documented translations were exercised".into()],
         assumptions: vec![
